@@ -51,6 +51,19 @@ def catches(h: ast.ExceptHandler, kind: str) -> str:
     return "none"
 
 
+# calls assumed total (never raise): logging and a few pure builtins.  Stated in the evidence
+# assumptions; without it every handler that logs before assigning would look like a failure point.
+TOTAL_CALL_PREFIXES = ("log.", "self.log.", "logger.", "logging.")
+TOTAL_CALLS = {"str", "repr", "len", "max", "min", "isinstance", "bool", "time", "perf_counter", "id", "type", "print"}
+
+
+def _total_call(call) -> bool:
+    nm = dotted(call.func)
+    if nm.startswith(TOTAL_CALL_PREFIXES) and nm.split(".")[-1] in ("debug", "info", "warning", "error", "exception", "critical", "getLogger", "log"):
+        return True
+    return nm in TOTAL_CALLS
+
+
 def may_raise_kinds(stmt) -> set:
     """Which exception kinds the CFG node of ``stmt`` can emit."""
     kinds = set()
@@ -66,7 +79,8 @@ def may_raise_kinds(stmt) -> set:
         kinds.add("exc")
     for n in own_nodes(stmt):
         if isinstance(n, ast.Call):
-            kinds.add("exc")
+            if not _total_call(n):
+                kinds.add("exc")
         elif isinstance(n, ast.Await):
             kinds |= {"exc", "cancel"}
         elif isinstance(n, ast.Subscript) and isinstance(n.ctx, (ast.Load, ast.Del)):
